@@ -97,6 +97,10 @@ def oracles(rec):
             live -= 1
     if cfg["n"] == 0 and N != max(cfg["gomaxprocs"], 4):
         bad("C03", "default concurrency is %d under GOMAXPROCS=%d, expected max(GOMAXPROCS,4)" % (N, cfg["gomaxprocs"]))
+    nstart = len([e for e in ev if e["k"] == "WStart"])
+    ndie = len([e for e in ev if e["k"] == "WDie"])
+    if not rec.get("caller_hung") and any(e["k"] == "LFinished" for e in ev) and nstart != N + ndie:
+        bad("C03", "%d workers were started for Concurrency %d and %d worker deaths: a worker that died was not replaced (capacity lost)" % (nstart, N, ndie))
     if maxlive > N + 1:
         bad("C03", "%d worker goroutines alive at once with Concurrency %d" % (maxlive, N))
     # ---- C07 / C08 / C09 (results)
@@ -254,6 +258,17 @@ def observe(seed, tier, extra_args=()):
             if r.get("hang"):
                 summary["hangs"] += 1
             if r.get("caller_hung"):
+                L = sched_lin.Lin(r, gated=gated)
+                ls = L.build(partial=True)
+                v = common.model_run("sched-replay", strip_ticks(ls))
+                verdict = v[0] if v else ""
+                m = re.search(r"ready=\[([0-9,]*)\].*workers=\[([^\]]*)\]", verdict)
+                if verdict.startswith("OK") and m and m.group(1) and "idle" in m.group(2) and "lp=run" in verdict:
+                    hits = summary["oracle_hits"].setdefault("C03", [])
+                    hits.append({"what": "the scheduler is stably blocked although a job is ready and a worker is idle (capacity lost): model state %s" % verdict[:300],
+                                 "all": [verdict[:600]], "case": cfg["case"], "plan": plan, "seed": seed * 1000 + pi,
+                                 "cfg": cfg, "wait_err": [], "events": r["events"][:400]})
+                summary.setdefault("hang_model_states", []).append(verdict[:400])
                 continue
             L = sched_lin.Lin(r, gated=gated)
             ls = L.build()
@@ -271,6 +286,8 @@ def observe(seed, tier, extra_args=()):
             elif len(summary["mismatch_full"]) < 5:
                 summary["mismatch_full"].append({"verdict": vf[:800], "case": r["cfg"]["case"], "plan": plan,
                                                  "seed": seed * 1000 + pi, "cfg": r["cfg"], "trace": ls[:600]})
+            if vc.startswith("OK") and "final=false" in vc and not r.get("hang"):
+                vc = "NONFINAL the execution ended, but in the model not every worker has exited / the loop has not finished: " + vc
             if vc.startswith("OK"):
                 summary["replay_core_ok"] += 1
             elif len(summary["mismatch_core"]) < 5:
